@@ -14,6 +14,7 @@ import random
 import sys
 
 VK = ["Ref", "Mut", "OptRef", "OptMut"]
+RES_KINDS_OVERRIDE = None
 
 # brood's type-level reshape of resource views only compiles for some orders of the requested
 # views relative to the resource list (measured with a scratch crate over all permutations of
@@ -42,7 +43,10 @@ def res_sample(rng, nres):
 
 def main():
     spec, seed, nq, out = sys.argv[1], int(sys.argv[2]), int(sys.argv[3]), sys.argv[4]
-    name, kinds, nres, shapes_spec, tagbase = (spec.split(":") + ["0"])[:5]
+    parts = spec.split(":")
+    name, kinds, nres, shapes_spec, tagbase = (parts + ["0"])[:5]
+    global RES_KINDS_OVERRIDE
+    RES_KINDS_OVERRIDE = parts[5].split(",") if len(parts) > 5 and parts[5] else None
     kinds = [k for k in kinds.split(",") if k]
     nres = int(nres)
     tagbase = int(tagbase)
@@ -267,6 +271,8 @@ class Gen:
             # with four resources the first and the last are `Plain`: interchangeable wire encodings
             if self.nres >= 4 and r_ in (0, self.nres - 1):
                 kind = "Plain"
+            if RES_KINDS_OVERRIDE:
+                kind = RES_KINDS_OVERRIDE[r_ % len(RES_KINDS_OVERRIDE)]
             w(f"pub type S{r_} = {kind}<{40 + self.tagbase % 8 + r_}>;")
         w(f"pub struct {self.name};")
         w(f"type Wd = W<{self.name}>;")
